@@ -62,12 +62,43 @@ def build(kind, log, refs=None, coroutine=None):
             if refs is not None:
                 refs.append(weakref.ref(self))
 
+        def vpd(self, a: int):
+            log.append(('vpd', dict(a=a, ctx=getattr(self.context, 'tag', None))))
+            return a
+
+        def vjs(self, a):
+            log.append(('vjs', dict(a=a, ctx=getattr(self.context, 'tag', None))))
+            return a
+
         def vget(self, a, b=2):
             log.append(('vget', dict(a=a, b=b, ctx=getattr(self.context, 'tag', None))))
             t = Token(a)
             if refs is not None:
                 refs.append(weakref.ref(t))
             return {'a': a, 'b': b, 'ctx': getattr(self.context, 'tag', None)}
+
+    # validated view methods (the validators see the per-request bound method)
+    pd.validate(View.vpd)
+    js.validate(schema={'type': 'object', 'properties': {'a': {'type': 'integer'}}})(View.vjs)
+
+    # two methods sharing ONE validator object but configured with different validator arguments
+    import jsonschema as _jsonschema
+    fmt_schema = {'type': 'object', 'properties': {'h': {'type': 'string', 'format': 'ipv4'}}, 'required': ['h']}
+
+    @js.validate(schema=fmt_schema, format_checker=_jsonschema.FormatChecker())
+    def jsfmt_strict(h):
+        log.append(('jsfmt_strict', dict(h=h)))
+        return h
+
+    @js.validate(schema=dict(fmt_schema))
+    def jsfmt_lenient(h):
+        log.append(('jsfmt_lenient', dict(h=h)))
+        return h
+
+    @pd.validate
+    def pdv2(a: str, b: float = 1.5):
+        log.append(('pdv2', dict(a=a, b=b)))
+        return [a, b]
 
     def withctx(ctx, a=1):
         log.append(('withctx', dict(a=a, ctx=getattr(ctx, 'tag', None))))
@@ -96,10 +127,14 @@ def build(kind, log, refs=None, coroutine=None):
                 w.__pjrpc_meta__ = dict(f.__pjrpc_meta__)
             return w
         withctx, jsv, pdv = co(withctx), co(jsv), co(pdv)
+        jsfmt_strict, jsfmt_lenient, pdv2 = co(jsfmt_strict), co(jsfmt_lenient), co(pdv2)
     d.registry.view(View, context='context')
     d.add(withctx, name='withctx', context='ctx')
     d.add(jsv, name='jsv', context='ctx')
     d.add(pdv, name='pdv', context='ctx')
+    d.add(jsfmt_strict, name='jsfmt_strict')
+    d.add(jsfmt_lenient, name='jsfmt_lenient')
+    d.add(pdv2, name='pdv2')
     return s
 
 
@@ -119,6 +154,9 @@ ALPHABET = [
     ('view', call('vget', [1])), ('viewfail', call('vget', {'zz': 1})), ('ctx', call('withctx', {'a': 5})),
     ('ctxinject', call('withctx', {'ctx': 'evil'})),
     ('jsok', call('jsv', [3])), ('jsfail', call('jsv', [-1])), ('pdok', call('pdv', {'a': 3})), ('pdfail', call('pdv', ['x'])),
+    ('vpd', call('vpd', [1])), ('vpdfail', call('vpd', ['x'])), ('vjs', call('vjs', [1])), ('vjsfail', call('vjs', ['x'])),
+    ('fmt-strict-bad', call('jsfmt_strict', ['not-an-ip'])), ('fmt-strict-ok', call('jsfmt_strict', ['1.2.3.4'])),
+    ('fmt-lenient', call('jsfmt_lenient', ['not-an-ip'])), ('pdv2', call('pdv2', ['s'])), ('pdv2fail', call('pdv2', {'a': 's', 'b': 'x'})),
     ('parse', '{"jsonrpc": "2.0", '), ('invalid', '{"jsonrpc":"2.0","id":1}'), ('boomt', call('boomt')),
 ]
 TEXT = dict(ALPHABET)
@@ -295,7 +333,7 @@ def gen_cases(ctx):
     # (b)
     for kind in ('sync', 'async'):
         for req in ('ok', 'boom', 'nobind', 'view', 'viewfail', 'ctx', 'ctxinject', 'jsok', 'jsfail', 'pdok', 'pdfail', 'batch',
-                    'notif', 'unknown'):
+                    'notif', 'unknown', 'vpd', 'vpdfail', 'vjs', 'vjsfail', 'fmt-strict-bad', 'pdv2'):
             yield dict(part='b', kind=kind, request=req)
     # (c)
     for pair in PAIRS:
@@ -325,7 +363,7 @@ def run_case(case, rec):
 def run(ctx):
     ctx.rule = ('(a) E2 without merging: every history of length <= %d over %d requests (success, each failure class, notification, '
                 'batch, class based view, context parameter, jsonschema / pydantic validated methods passing and failing, parse '
-                'error, invalid request) then all %d probes, both dispatchers; (b) 14 request kinds x both dispatchers x N = 1, 10, '
+                'error, invalid request) then all %d probes, both dispatchers; (b) 20 request kinds (incl. view methods validated by each validator) x both dispatchers x N = 1, 10, '
                 '110, 1110 dispatches with a fresh context each; (c) E5: %d request pairs on 2 threads with <= 2 preemptions (quick: '
                 '2 pairs with 2, the others with 1) and %d triples on 3 threads with <= 1 preemption, a thread switch possible at '
                 'every source line of pjrpc. state = one history / one retention run / one complete thread schedule; non-trivial = '
@@ -337,7 +375,7 @@ def run(ctx):
     ctx.run_cases('C13', lambda: gen_cases(ctx), run_case, recheck_every=100003)
     c = ctx.rec.counters
     ctx.guard('threads really interleaved inside dispatch', c['thread schedules that interleaved inside dispatch'] > 100, dict(c))
-    ctx.guard('retention runs done', c['retention runs'] == 28, dict(c))
+    ctx.guard('retention runs done', c['retention runs'] == 40, dict(c))
 
 
 def replay(doc):
